@@ -104,6 +104,7 @@ type RPCPlan struct {
 	Client      ClientPlan  `json:"client"`
 	Backend     BackendPlan `json:"backend"`
 	Passthrough bool        `json:"passthrough,omitempty"` // backend should treat the request as opaque (C13)
+	Relaxed     bool        `json:"relaxed,omitempty"`     // full-duplex RPC with a one-sided fault: its outcome legitimately depends on the schedule
 }
 
 type PoolPlan struct {
